@@ -105,6 +105,18 @@ def run(ctx):
         seen.add(key)
         behs.append({'calls': calls, 'family': 'tlc-simulated history', 'naming': rnd.choice(['int', 'str']),
                      'lstyle': rnd.choice(['set', 'list']), 'shuf': rnd.randrange(1 << 30)})
+    # spec growth beyond the property: the mutators Kripke inherits from DiGraph and the set handed out by
+    # labels(s) - the model (KripkeLib with Mutators = TRUE) says what the code does; any drift is reported
+    res, _ = ctx.model('MC_KripkeLib.tla', 'KripkeLib_mut.cfg', timeout=3000, heap='16g', expect_ok=False)
+    ctx.note('inherited_mutators_break_KripkeInv_at_design_level', 'KripkeInv' in res['violated'])
+    simm = graphfam.simulate(ctx, 'MC_KripkeLib.tla', 'KripkeLib_simmut.cfg', 300 if q else 5000, 40, ctx.seed + 4)
+    seen = set()
+    for calls in simm:
+        key = json.dumps(calls)
+        if key not in seen:
+            seen.add(key)
+            behs.append({'calls': calls, 'family': 'tlc-simulated history with inherited mutators', 'naming': rnd.choice(['int', 'str']),
+                         'lstyle': 'set', 'shuf': rnd.randrange(1 << 30)})
     fams = {}
     for b in behs:
         fams[b['family']] = fams.get(b['family'], 0) + 1
